@@ -9,7 +9,7 @@ def sh(cmd, cwd, timeout=3000, env=None):
 ap = argparse.ArgumentParser(); ap.add_argument("wt"); ap.add_argument("out"); ap.add_argument("k"); ap.add_argument("--checks", required=True)
 a = ap.parse_args()
 d = os.path.join(a.out, a.k); patch = os.path.join(d, "patch.diff")
-sh("git checkout -- .", a.wt)
+sh("git checkout -- . && git clean -fdq -e OUT", a.wt)
 rc, head = sh("git -C /repo rev-parse HEAD", a.wt); sh("git checkout -q --detach %s" % head.strip(), a.wt)
 rc, out = sh("git apply %s" % patch, a.wt)
 if rc != 0:
@@ -28,7 +28,7 @@ try:
                 meta["results"][c]["replay_excerpt"] = open(m.group(1)).read()[:2500]
         print(a.k, c, "rc=%s" % rcc, lines[-2:])
 finally:
-    sh("git checkout -- .", a.wt)
+    sh("git checkout -- . && git clean -fdq -e OUT", a.wt)
 dst = os.path.join("/verif/benign", os.environ.get("VERIF_BENIGN_PREFIX", "") + a.k); os.makedirs(dst, exist_ok=True)
 for f in ("patch.diff", "README.md"):
     shutil.copyfile(os.path.join(d, f), os.path.join(dst, f))
